@@ -152,8 +152,8 @@ def release (rm : RM) (id : Nat) (part : Option Req) : RM × Res × List ResRec 
         (rm1.setHeld id (reduceHeld h rel), .ok, recs, rm.inited)
       | e => (rm, e, [], false)
 
-/-- `a.merge(b)`: add `b`'s holdings to `a`, empty `b` (`a` and `b` may be the same object: the
-amounts are then doubled and dropped, exactly as in the source). -/
+/-- `a.merge(b)`: add `b`'s holdings to `a`, empty `b`; merging a reservation into itself does
+nothing (repair of finding F11: the source used to double and then drop the holdings). -/
 def mergeHeld (ha hb : Req) : Req :=
   hb.foldl (fun acc (r, x) =>
     match heldAmt acc r with
@@ -162,7 +162,8 @@ def mergeHeld (ha hb : Req) : Req :=
 
 def merge (rm : RM) (a b : Nat) : RM × Res :=
   match rm.held a, rm.held b with
-  | some ha, some hb => ((rm.setHeld a (mergeHeld ha hb)).setHeld b [], .ok)
+  | some ha, some hb =>
+    if a == b then (rm, .ok) else ((rm.setHeld a (mergeHeld ha hb)).setHeld b [], .ok)
   | none, _ => (rm, .err .attribute)
   | _, none => (rm, .err .type_)
 
